@@ -809,7 +809,10 @@ class SchedRun:
         p = subprocess.run(["git", "-c", "safe.directory=*", "-c", "core.quotepath=false", "status", "--porcelain"], cwd=work, env=env, capture_output=True, timeout=60)
         lines = [l for l in p.stdout.decode("utf-8", "replace").splitlines() if not l.rstrip().endswith("index.lock")]
         self.count("git.status")
-        weird = ",".join(sorted({g[1] for g in got.values() if g[0] == "exc" and g[1] not in ("LockedError", "InvalidETag", "DuplicateUidError", "NoSuchItem")}))
+        flat = []
+        for g in got.values():
+            flat += [g[1], g[2]] if g[0] == "seq" else [g]
+        weird = ",".join(sorted({g[1] for g in flat if g[0] == "exc" and g[1] not in ("LockedError", "InvalidETag", "DuplicateUidError", "NoSuchItem")}))
         if p.returncode != 0 or lines:
             self.violations.append({"prop": "C09", "oracle": "C09.status-not-clean-after-overlapping-requests",
                                     "sig": {"oracle": "C09.status-not-clean-after-overlapping-requests", "mode": plan["mode"], "exceptions": weird}, "step": None,
